@@ -4,7 +4,7 @@ CONSTANTS
   PathIds = {"none", "name2", "in2"}
   Bodies = {"", "*", "inner"}
   MaxExtra = 1
-  ReqSetIds = {"names"}
+  ReqSetIds = {"names", "mixed"}
   PathValIds = {"i2", "s2"}
   VarLeaves = {"name", "inner.name", "kind", "r_string"}
   Numerics = {FALSE, TRUE}
